@@ -1,7 +1,9 @@
 """C17 - hash sorting groups equal items and its searches agree with a linear scan.
 tie: T-gen (cxx2coq on HashSorter::pvMultShift/pvGetStepCount/pvCompare) + T-cor (hand models SorterSearch.v / SorterSort.v instantiated
 with the generated leaves, extracted, run against the real HashSorter incl. read traces) + verified checker on real Sort output."""
-import os, itertools, collections
+import os, sys, itertools, collections
+sys.path.insert(0, os.path.dirname(os.path.abspath(__file__)))
+import sel2coq
 
 EV = collections.Counter()      # measured events (filled by the oracle from the real code's outputs)
 
@@ -331,6 +333,36 @@ def gen_sorttrace(ctx, scale, maxlen):
             hs.append(line('HSORT', r.choice(['p', 'h']), pairs))
     return hs, rs
 
+def gen_gsel(ctx, scale):
+    r = ctx.rng; cases = []
+    for n in range(1, 7):
+        for seq in itertools.product((0, 1, 2), repeat=n):
+            cases.append('GSEL %d %s' % (n, ' '.join(str((5, M64, 2 ** 63)[x]) for x in seq)))
+    for _ in range(600 * scale):
+        n = r.choice([1, 2, 3, 7, 8, 15, 16, 30, 31, 32]); k = r.range(1, 6)
+        pool = [r.below(2 ** 64) for _ in range(k)] + [0, M64]
+        cases.append('GSEL %d %s' % (n, ' '.join(str(r.choice(pool) if r.chance(3, 4) else r.below(2 ** 64)) for _ in range(n))))
+    return cases
+
+def gsel_oracle(ctx, c, out):
+    w = c.split(); n = int(w[1]); vals = list(map(int, w[2:]))
+    if out.startswith('OOB'): return 'pvSelectionSort wrote outside the array'
+    try:
+        body, grp = out.split('|'); got = list(map(int, body.split()))
+        calls = [tuple(map(int, g.split(':'))) for g in grp.split()]
+    except ValueError:
+        return 'unparsable output %r' % out[:80]
+    EV['GSEL n=%s' % ('1' if n == 1 else '2' if n == 2 else '3..31' if n < 32 else '32')] += 1
+    if got != sorted(vals): return 'pvSelectionSort output is not the sorted input'
+    runs = []; i = 0
+    while i < n:
+        j = i
+        while j < n and got[j] == got[i]: j += 1
+        runs.append((i, j - i)); i = j
+    if calls != runs: return 'groupFunc calls %s are not the runs of equal codes %s' % (calls[:6], runs[:6])
+    if n >= 3: ctx.nontrivial.add(c)
+    return None
+
 def sorttrace_oracle(ctx, c, out):
     w = c.split()
     if out.startswith('OOB'): return 'Sort read/wrote outside the array'
@@ -397,6 +429,19 @@ def oracle_one(ctx, c, out):
         return None if out.split()[-1:] == ['ok'] and not out.startswith('OOB') else 'BIGFIND: Find/GetBounds differ from the linear scan: ' + out[:200]
     if w[0] in ('HSORT', 'RSORT'):
         return sorttrace_oracle(ctx, c, out)
+    if w[0] == 'GSEL':
+        return gsel_oracle(ctx, c, out)
+    if w[0] == 'BIGM':
+        n_, pos, mode = int(w[1]), int(w[2]), int(w[3]); EV['BIGM step=3 %s mode=%d' % ('quadratic' if mode >= 10 else 'uniform', mode % 10)] += 1; mode %= 10
+        if out.startswith('OOB'): return 'read outside the array'
+        k, f, bb, be = map(int, out.split('|')[0].split())
+        idq = pos // 2
+        if mode == 0:
+            lo, hi = 2 * idq, min(2 * idq + 2, n_)
+            if not (f == 1 and lo <= k < hi and (bb, be) == (lo, hi)): return 'BIGM: Find/GetBounds %s, expected item range [%d,%d)' % (out.split('|')[0], lo, hi)
+        elif not (f == 0 and bb == be and 0 <= bb <= n_): return 'BIGM: absent item reported as %s' % out.split('|')[0]
+        ctx.nontrivial.add(c)
+        return None
     if w[0] in ('SCODE', 'UCODE'):
         W = int(w[1]); x = int(w[2]); EV['code getter %s W=%d' % (w[0], W)] += 1
         exp = x + 2 ** (W - 1) if w[0] == 'SCODE' else x
@@ -526,6 +571,18 @@ def run(ctx):
                         'equalFunc is an equivalence relation; equal items have equal hash codes',
                         'Sort is proved about the hand model SorterSort.v (array = list of (code,item) pairs, hashFunc deterministic), tied to the real code by swap trace + final arrangement']
     ctx.regen(GEN)
+    # second generated file: RadixSorter<8>::pvSelectionSort (member template with functors and a local std::array cache)
+    gsel = os.path.join(ctx.cdir, 'Gen_SelSort.v')
+    try:
+        txt = sel2coq.translate(repo=ctx.repo)
+        if not os.path.exists(gsel) or open(gsel).read() != txt:
+            open(gsel, 'w').write(txt)
+        ctx.tie_obligations.append({'name': 'translate Gen_SelSort (pvSelectionSort)', 'ok': True})
+        ctx.stage('regen-selsort', True)
+    except sel2coq.TranslationError as e:
+        if os.path.exists(gsel): os.remove(gsel)
+        ctx.tie_obligations.append({'name': 'translate Gen_SelSort (pvSelectionSort)', 'ok': False, 'error': str(e)[:500]})
+        ctx.stage('regen-selsort', False, str(e))
     ctx.prove()
     exes = ctx.cxx_many([('harness.cpp', 'harness', []),
                          ('harness_radix.cpp', 'harness_radix', ['-fsanitize=shift', '-fno-sanitize-recover=all'])])
@@ -554,6 +611,14 @@ def run(ctx):
     radix = gen_radix(ctx, scale, False)
     b, _ = run_oracle(ctx, hradix, radix, 'oracle-radix'); bad += b
     b, _ = run_oracle(ctx, hradix, codeg, 'oracle-codegetter'); bad += b
+    gsel_cases = gen_gsel(ctx, scale)
+    bigm = []       # model AND real code on arrays of >= 2^22 items (pvGetStepCount = 3)
+    for n_ in ((2 ** 22,) if ctx.quick() else (2 ** 22, 2 ** 22 + 5, 2 ** 23 + 1)):
+        for pos in [0, 1, n_ - 1, n_ // 2, n_ // 3] + [ctx.rng.below(n_) for _ in range(3 if ctx.quick() else 12)]:
+            for mode in (0, 1, 2, 10, 11, 12):
+                bigm.append('BIGM %d %d %d' % (n_, pos, mode))
+    b, _ = run_oracle(ctx, harness, bigm, 'oracle-bigm'); bad += b
+    b, _ = run_oracle(ctx, hradix, gsel_cases, 'oracle-gsel'); bad += b
     st_hs, st_rs = gen_sorttrace(ctx, scale, maxlen)
     st_hs = st_hs + co_hs
     b, _ = run_oracle(ctx, harness, st_hs, 'oracle-sorttrace-hs'); bad += b
@@ -584,17 +649,19 @@ def run(ctx):
                 outp = ' '.join('%s %d' % (nums[3 * i], int(nums[3 * i + 1]) // div) for i in range(len(pairs)))
                 chk.append('CHK %s %d %s %s' % (var.lower(), len(pairs), inp, outp))
         for name, cs, hx in (('leaves', leaves, harness), ('small', small, harness), ('long', longc, harness), ('sort-check', chk, harness),
-                             ('sort-trace-hashsorter', st_hs, harness), ('sort-trace-radixsorter', st_rs, hradix), ('code-getter', codeg, hradix)):
-            mism, _ = ctx.correspond(name, cs, [hx], [ctx.model_exe])
+                             ('sort-trace-hashsorter', st_hs, harness), ('sort-trace-radixsorter', st_rs, hradix), ('code-getter', codeg, hradix), ('generated-selection-sort', gsel_cases, hradix), ('big-arrays-step3', bigm, harness)):
+            # the model's pvFindNext fuel is the unary numeral S (Z.to_nat count): 2^22 items need a deep (non-tail) recursion
+            mcmd = ['bash', '-c', 'ulimit -s unlimited; exec ' + ctx.model_exe] if name == 'big-arrays-step3' else [ctx.model_exe]
+            mism, _ = ctx.correspond(name, cs, [hx], mcmd)
             ctx.tie_obligations.append({'name': 'model == real code on %d %s cases (results + read traces)' % (len(cs), name), 'ok': not mism})
             mism.sort(key=lambda t: len(t[1]))
             for (i, c, a, b) in mism[:2]:
                 ctx.violation('model and implementation disagree (%s)' % name, {'case': c, 'impl': a[:2000], 'model': b[:2000],
                               'cmd': 'echo "<case>" | build/C17/harness'}, found_input=True)
-    allc = leaves + small + longc + sorts + radix + narrow + st_hs + st_rs + big + codeg
+    allc = leaves + small + longc + sorts + radix + narrow + st_hs + st_rs + big + codeg + gsel_cases + bigm
     for c in (small[len(small) // 2], small[-1], longc[0], sorts[len(sorts) // 3], leaves[5]):
         ctx.add_sample(c[:300])
-    ctx.coverage['input_distribution'] = {k: sum(1 for c in allc if c.startswith(k + ' ')) for k in ('MS', 'SC', 'CMP', 'FH', 'F', 'B', 'S', 'SORT', 'RADIX', 'RADIXP', 'RADIXI', 'HSORT', 'RSORT', 'BIGFIND', 'SCODE', 'UCODE')}
+    ctx.coverage['input_distribution'] = {k: sum(1 for c in allc if c.startswith(k + ' ')) for k in ('MS', 'SC', 'CMP', 'FH', 'F', 'B', 'S', 'SORT', 'RADIX', 'RADIXP', 'RADIXI', 'HSORT', 'RSORT', 'BIGFIND', 'SCODE', 'UCODE', 'GSEL', 'BIGM')}
     ctx.coverage['input_distribution'].update({'measured: ' + k: v for k, v in sorted(EV.items())})
     ctx.coverage['max_array_length'] = max([int(c.split()[2]) for c in longc + sorts] + [int(c.split()[1]) for c in big])
     ctx.coverage['radix'] = 'RadixSorter<1..16> x codes of 8/16/32/64 bits x sizes around the selection-sort threshold 2^(R/2+1) + pointers; std sorted() oracle + groupFunc-call oracle'
